@@ -268,19 +268,22 @@ func (e *Env) execWith(scs []*scen.Scenario, timeout time.Duration, extraEnv []s
 		_ = os.MkdirAll(cwd, 0o755)
 	}
 	var fileDir string
+	fileDirs := make([]string, len(scs)) // per episode (a batch may hold several episodes with files of their own)
 	for k, sc := range scs {
 		if sc.World.FileDir == "auto" {
-			// a private directory for the fd-backed destinations of this process
+			// a private directory for the fd-backed destinations of this episode
 			d, err := os.MkdirTemp(e.Scratch, "files-")
 			if err == nil {
 				c := *sc
 				c.World.FileDir = d
 				scs = append(append([]*scen.Scenario{}, scs[:k]...), append([]*scen.Scenario{&c}, scs[k+1:]...)...)
 				fileDir = d
+				fileDirs[k] = d
 				defer os.RemoveAll(d)
 			}
 		} else if sc.World.FileDir != "" {
 			fileDir = sc.World.FileDir
+			fileDirs[k] = sc.World.FileDir
 		}
 	}
 
@@ -376,15 +379,20 @@ func (e *Env) execWith(scs []*scen.Scenario, timeout time.Duration, extraEnv []s
 		}
 	}
 	if fileDir != "" {
-		ents, _ := os.ReadDir(fileDir)
-		files := map[string][]byte{}
-		for _, en := range ents {
-			if b, err := os.ReadFile(filepath.Join(fileDir, en.Name())); err == nil {
-				files[en.Name()] = b
+		read := func(dir string) map[string][]byte {
+			ents, _ := os.ReadDir(dir)
+			files := map[string][]byte{}
+			for _, en := range ents {
+				if b, err := os.ReadFile(filepath.Join(dir, en.Name())); err == nil {
+					files[en.Name()] = b
+				}
 			}
+			return files
 		}
-		for _, r := range runs {
-			r.Files = files
+		for i, r := range runs {
+			if fileDirs[i] != "" {
+				r.Files = read(fileDirs[i])
+			}
 		}
 	}
 	return runs
